@@ -13,6 +13,9 @@ import AfkakProofs.Group.ComposedBase
 import AfkakProofs.Group.ComposedFenced
 import AfkakProofs.Group.StrictPartial
 import AfkakProofs.Group.LeaveTrace
+import AfkakProofs.Group.Graceful
+import AfkakProofs.Group.StopFinal
+import AfkakProofs.Group.SyncIds
 import AfkakProps.Open.C16
 /-!
 # C16 — generation fencing: no partition consumer outlives its group generation
@@ -89,6 +92,15 @@ theorem C16_stopping_quiesced (cfg : Cfg) (evs : List Ev) (hs : (final cfg evs).
   rw [(h.held_running c hc).mpr hr] at this
   cases this
 
+/-- "After stop" is FOR EVER: `_stopping` is never reset, so once `Coordinator.stop` has begun NO
+    continuation of the history — any events in any order, `start()` included — ever sends a coordinator
+    look-up, JoinGroup, SyncGroup or heartbeat again, and the member is still stopping at its end.
+    (`C16_after_stop_only_leave` says it of each step that ends stopping; this says nothing un-stops it.) -/
+theorem C16_stop_is_final (cfg : Cfg) (evs tail : List Ev) (h : (final cfg evs).stopping = true) :
+    (∀ x ∈ runFrom cfg (final cfg evs) tail, ∀ o ∈ x.2.1, isGroupReqOb o = false) ∧
+    (final cfg (evs ++ tail)).stopping = true :=
+  stop_is_final cfg evs tail h
+
 /-- At most one join coroutine: `_rejoin_d` is set exactly while `_join_and_sync` is suspended, and
     `join_and_sync` starts a new one only when it is not. -/
 theorem C16_one_join_coroutine (cfg : Cfg) (evs : List Ev) :
@@ -141,6 +153,22 @@ theorem C16_no_join_after_stop_called (cfg : Cfg) (evs : List Ev) : noJoinAfterS
     error could clear the member id, and no `stop()` drain coexists with a join exchange. -/
 theorem C16_starts_with_join_ids (cfg : Cfg) (evs : List Ev) : startsWithJoinIds (toMSteps (run cfg evs)) = true :=
   startsWithJoinIds_run cfg evs
+
+/-- … and so does every SyncGroup request: it quotes exactly the member id and generation of the last
+    processed successful join reply (the follower's sync is sent by that very reply, the leader's by the
+    partitions reply with the ids unchanged in between).  `startsWithJoinIdsFrom2` is `startsWithJoinIds`
+    extended with the `sync` case (audit round 2, C16-3); it is proved of every model run here but is NOT
+    YET the definition the driver evaluates on implementation traces (see `AfkakProofs/Group/SyncIds.lean`):
+    on the code the ids of a SyncGroup request are checked by the comparison of observations with the model.
+    The stale-sync trace of the audit is rejected by it (example below). -/
+theorem C16_sync_quotes_join_ids (cfg : Cfg) (evs : List Ev) :
+    startsWithJoinIdsFrom2 none (toMSteps (run cfg evs)) = true :=
+  startsWithJoinIds2_run cfg evs
+
+example : startsWithJoinIdsFrom2 none
+    [⟨.joinDone (.ok 1 1 false 0), [.sync (some 7) 9 0], snap init⟩] = false := by decide
+example : startsWithJoinIdsFrom2 none
+    [⟨.joinDone (.ok 1 1 false 0), [.sync (some 1) 1 0], snap init⟩] = true := by decide
 
 /-- Every heartbeat is sent by a member that is neither stopping nor wanting a rejoin, and quotes
     the member's CURRENT generation and member id (monitor `heartbeatIds`, with the snapshot before
@@ -294,6 +322,34 @@ theorem C16_graceful_drain_counterexample : ¬ Open.C16_graceful_drain := by
   revert this
   decide +kernel
 
+/-- The graceful-shutdown clause holds of EVERY history in which the known finding's situation does not
+    occur (`stopKillsPrepareDrain`, a decidable predicate of the event list: a `stop()` is called on a
+    member that is not stopping, or the reply to a LeaveGroup arrives, while the join coroutine waits in
+    `on_join_prepare` for the previous generation's consumers — `Coordinator.stop` then cancels that join
+    and the cancelled `DeferredList` kills the draining consumers).  Outside it a consumer is hard-stopped
+    only (a) in a step that processes an eviction or fatal error — the generated error table stops the
+    consumers for no other error kind (`Tables.benign_row`) —, (b) when a shutdown Deferred fails, or
+    (c) when the `shutdown()` of a consumer the environment has rigged is attempted in that very step (the
+    monitor's `faulty` list covers every rigged record: invariant `QL`, kept by `step_qid`).  The gap to
+    `Open.C16_graceful_drain` is exactly the finding `stop-kills-consumers-draining-for-rejoin` (its
+    leave-reply half also covers the nested stop of a FATAL error that arrives during a rejoin's drain and
+    has to wait for the leave reply: the kill then happens one step after the error). -/
+theorem C16_graceful_drain_partial (cfg : Cfg) (evs : List Ev) (h : stopKillsPrepareDrain cfg evs = false) :
+    gracefulDrain (toMSteps (run cfg evs)) = true :=
+  gracefulDrain_run cfg evs h
+
+/-! Non-vacuity: a rebalance whose drain completes (both consumers shut down gracefully, the JoinGroup goes
+out), then an eviction that hard-stops the new consumers, then a `stop()` — the hypothesis holds and
+consumers ARE hard-stopped (by the eviction); on the counterexample's history it fails. -/
+def exRebalance : List Ev :=
+  exStable ++ [.advance 5, .fire 0 none, .hbDone (.err .rebalanceInProgress), .advance 1, .fire 2 none, .coordDone .ok, .metaDone .ok,
+    .consumerDown 0 true, .consumerDown 1 true, .joinDone (.ok 1 6 false 0), .syncDone (.ok [(1, [0])]),
+    .consumerErr 2 .illegalGeneration, .stop]
+example : stopKillsPrepareDrain exCfg exRebalance = false ∧
+    ((run exCfg exRebalance).any fun x => x.2.1.any isStopOb) = true := by decide +kernel
+example : stopKillsPrepareDrain exCfg (exStable ++ [.advance 5, .fire 0 none, .hbDone (.err .rebalanceInProgress), .advance 1, .fire 2 none,
+    .coordDone .ok, .metaDone .ok, .stop, .leaveDone .ok]) = true := by decide +kernel
+
 /-- "The member leaves only when no consumer is live" is FALSE of the code: a stable member with two
     consumers; `stop()` starts draining them; consumer 0 fails with a non-Kafka error; the nested
     `self.stop(error)` of `rejoin_after_error` is not refused, finds `self.consumers` empty and sends
@@ -370,6 +426,9 @@ C16_leave_after_drain_partial
 C16_leave_after_drain_counterexample
 C16_after_stop_called_only_leave_partial
 C16_leave_after_drain_trace_partial
+C16_graceful_drain_partial
+C16_stop_is_final
+C16_sync_quotes_join_ids
 -/
 /- OPEN_STATEMENTS
 C16_after_stop_called_only_leave
